@@ -1525,7 +1525,7 @@ func perm(r *common.Rng, n int) []int {
 func main() {
 	o := common.ParseFlags()
 	out = common.NewOut(o.Out)
-	out.Rule = "structure-aware wire-level requests: valid DAG skeletons (1..12 modules, sometimes up to 105) of maps/stores/block indexes with filters, params, sources, init blocks; 0..3 seeded mutations out of the listed classes (gen:* counters), Go-only shapes pushed through the encoder, an exhaustive family of all 2-module requests over a small alphabet; every request goes through proto.Marshal/Unmarshal; non-trivial = at least 2 modules; distinct by case line"
+	out.Rule = "structure-aware wire-level requests: a fixed corpus of minimal witnesses; valid DAG skeletons (1..12 modules, sometimes up to 100) of maps/stores/block indexes with filters, params, sources, init blocks; 1..3 seeded mutations out of the listed classes (gen:* counters) and each class alone; Go-only shapes pushed through the encoder; an exhaustive family of all 2-module requests over a small alphabet; sizes around the 100-module / 30-input limits; tier2 (T2) requests derived from a third of them with stage numbers in and out of range; every request goes through proto.Marshal/Unmarshal and every case line is checked to be a wire-level fixpoint; non-trivial = at least 2 modules; distinct by case line"
 	defer out.Finish()
 
 	t2Dir = filepath.Join(o.Out, "t2")
@@ -1540,6 +1540,7 @@ func main() {
 		return
 	}
 	generate(o)
+	probeMetering()
 	if len(maxAllocLine) > 300 {
 		maxAllocLine = maxAllocLine[:300] + "..."
 	}
